@@ -24,6 +24,9 @@ def replay(job):
     PART = ((["(c) YYYY", "since YYYY -", "year=YYYY"] if case["engine"] == "v2" else ["(c) {year}", "since {year} -", "year={year}"]), ["(c) 2021", "since 2021 -", "year=2021"], ["(c) ", "since ", "year="])
     raws_of = lambda k: (PART[0] if (partial_last and k == n - 1) else RAWS)[:case["pats"][k]]
     entries = [(keys[k], raws_of(k)) for k in range(n)]
+    if seed % 5 == 2 and n >= 2 and not partial_last and case["fault"]["kind"] != "removed":      # (a removed file would simply drop out of the glob)
+        # one glob entry first that gives every file its first pattern, then the files' own keys with the rest: the entries of one file are not adjacent
+        entries = [("a*.txt", [RAWS[0]])] + [(names[k], RAWS[1:case["pats"][k]]) for k in range(n) if case["pats"][k] > 1]
     cfg_pos = rng.randrange(0, n + 1)
     fault = case["fault"]
     with drive.scratch_dir("c06") as d:
